@@ -640,6 +640,15 @@ static void body_payload(int d1, int has1, int d2, int has2) {         // d2 == 
   ARBITRARY_ACTIVE(f);
   g_pay_n = d2 ? 2 : 1; g_pay_dest[0] = d1; g_pay_dest[1] = d2; g_pay_has[0] = has1 != 0; g_pay_has[1] = has2 != 0;
   g_pay_val[0] = nd_i32(); g_pay_val[1] = nd_i32();
+  { // inductive pre-state: the history left by the PREVIOUS step is arbitrary (any number of entries, each with or without a payload)
+    auto& pt = f._core.previousTransitions;
+    const unsigned n = nd_u8_below(pt.CAPACITY + 1);
+    pt.clear();
+    for (unsigned i = 0; i < pt.CAPACITY; ++i) if (i < n) {
+      const StateID pd = nd_u16_below(VM_NS); const int32_t pv = nd_i32();
+      if (nd_bool()) pt.emplace(Instance::Transition{pd, TransitionType::CHANGE, pv}); else pt.emplace(Instance::Transition{pd, TransitionType::CHANGE});
+    }
+  }
   if (has1) f.changeWith((StateID) d1, g_pay_val[0]); else f.changeTo((StateID) d1);
   if (d2) { if (has2) f.changeWith((StateID) d2, g_pay_val[1]); else f.changeTo((StateID) d2); }
   g_issuer = -1; g_issuer2 = -1;
